@@ -58,7 +58,7 @@ def history(ops, answers, sides, conc=False):
         e.i, e.line = i, l
         e.op, e.args = (toks[0], toks[1:]) if toks else ("", [])
         e.dropped = False
-        if toks and toks[0].startswith("dropat") and toks[0][6:].isdigit() and len(toks) > 2:
+        if toks and ((toks[0].startswith("dropat") and toks[0][6:].isdigit()) or (toks[0].startswith("dropw") and toks[0][5:].isdigit())) and len(toks) > 2:
             e.op, e.args = toks[2], toks[3:]
             e.dropped = a == "dropped"
         elif toks and (toks[0] == "direct" or (toks[0].startswith("drop") and toks[0][4:].isdigit())) and len(toks) > 1:
@@ -841,6 +841,29 @@ def c12(w):
     for x in w.evs:
         if x.ans.startswith("HANG"):
             f.append(("c12:hang:%s" % x.op, "`%s` hangs (op #%d)" % (x.line[:80], x.i)))
+    # a DeleteSubscription answered with an error other than NOT_FOUND / INVALID_ARGUMENT has (partly)
+    # happened or lost against one that has: by the end of the scenario nobody may still be waiting
+    attempted = {}
+    for dx in w.evs:
+        if dx.op == "dsub":
+            code = dx.ans.split(" ")[0]
+            sub = split_name(unhx(dx.args[0]), b"subscriptions")
+            if code in GRPC_ERRORS and code not in ("not_found", "invalid_argument"):
+                attempted.setdefault(sub, dx)
+    for sub, dx in attempted.items():
+        for x in w.evs:
+            if x.op == "pull" and len(x.args) >= 3 and x.args[2] == "0" and split_name(unhx(x.args[0]), b"subscriptions") == sub and x.b < dx.b and x.e > dx.e:
+                if x.ans.strip() == "ok -" and x.t1 - dx.t1 > 250 * 10 ** 6:
+                    f.append(("c12:not-released:pull-after-failed-delete", "DeleteSubscription answered %s; the Pull blocked on the subscription waited out its limit (op #%d)" % (dx.ans.split(" ")[0], x.i)))
+        opened = {}
+        for x in w.evs:
+            if x.op == "sopen" and x.ans == "ok" and split_name(unhx(x.args[1]), b"subscriptions") == sub and x.e < dx.b:
+                opened[x.args[0]] = x.i
+        for k, i0 in opened.items():
+            reads = [x for x in w.evs if x.op == "sread" and x.args[0] == k and x.b > dx.e]
+            dropped = [x for x in w.evs if x.op in ("sdrop",) and x.args[0] == k and x.b < dx.e]
+            if reads and not dropped and reads[-1].ans.endswith("open") and "end:" not in reads[-1].ans:
+                f.append(("c12:not-released:stream:open-after-failed-delete", "DeleteSubscription answered %s; StreamingPull %s is still open at the end of the scenario (op #%d)" % (dx.ans.split(" ")[0], k, reads[-1].i)))
     for dx in w.evs:
         if dx.op != "dsub" or not dx.ans.startswith("ok"):
             continue
